@@ -25,11 +25,11 @@ var srcSignOCI = []*fsTarget{
 			"generateAnnotations":         {lean: "generateAnnotations", effect: true, nres: 2},
 		},
 		methods: map[string]fsCallee{
-			"Resolve":           {lean: "Repository.Resolve", effect: true, nres: 2},
-			"PushSignature":     {lean: "Repository.PushSignature", effect: true, nres: 3},
-			"Sign":              {lean: "Signer.Sign", effect: true, nres: 3},
-			"PluginAnnotations": {lean: "SignerAnnotation.PluginAnnotations", effect: true, nres: 1},
-			"String":            {lean: "Digest.String", nres: 1},
+			"Resolve":                {lean: "Repository.Resolve", effect: true, nres: 2},
+			"PushSignature":          {lean: "Repository.PushSignature", effect: true, nres: 3},
+			"Sign":                   {lean: "Signer.Sign", effect: true, nres: 3},
+			"PluginAnnotations":      {lean: "SignerAnnotation.PluginAnnotations", effect: true, nres: 1},
+			"String":                 {lean: "Digest.String", nres: 1},
 			"IsReferrersIndexDelete": {lean: "ReferrersError.IsReferrersIndexDelete", nres: 1},
 		},
 		dropCalls: []string{"log.GetLogger"},
